@@ -187,7 +187,8 @@ def run_case(ctx, case, rng):
             wait_call(t, p)
         flags = "eof_sent=%s, closed=%s, transport active=%s" % (bool(x.eof_sent), bool(x.closed), bool(tx.is_active()))
         desc = dict(case=case, flags=flags)
-        if t.is_alive():
+        give_up = time.monotonic() + 240
+        while t.is_alive():
             sig = "%s never returned: blocked at quiescence (%s, mode=%s)" % (case["api"], flags, case["mode"])
             # the first witness of a mechanism pays the full margin; repeats of the same one a short one
             ok, stk = cm.blocked_at_quiescence([t], p.link, 1.0 if sig in ctx.violations else ctx.pick(10, 20))
@@ -196,9 +197,13 @@ def run_case(ctx, case, rng):
                 ctx.violation(sig,
                               "the call is parked with the link drained and nothing left that could wake it",
                               dict(desc, stack=stk))
-            else:
+                return
+            if time.monotonic() > give_up:
                 ctx.inconclusive("sendall still running without quiescence: %s" % case)
-            return
+                return
+            wait_call(t, p, 30)  # not blocked (starved or slow): keep waiting
+            flags = "eof_sent=%s, closed=%s, transport active=%s" % (bool(x.eof_sent), bool(x.closed), bool(tx.is_active()))
+            desc = dict(case=case, flags=flags)
         oc = res.get("outcome")
         ctx.count("outcome_" + str(oc))
         ctx.count("calls_judged")
@@ -234,6 +239,116 @@ def run_case(ctx, case, rng):
                               "open channel, window available (or peer reading), yet the call raised: %r" % (res["exc_obj"],),
                               desc)
         ctx.count("cases_run")
+    finally:
+        p.close()
+
+
+# ---------------------------------------------------------------------------
+TIMED_SIG = ("timed %s not timed out: total time waited in the send-window wait exceeds the timeout N-fold while "
+             "window-less wake-ups keep arriving")
+
+
+def run_timed(ctx, case, rng):
+    """settimeout(t), window exhausted, and the peer keeps waking the writer without giving window
+    (WINDOW_ADJUST of 0 bytes every ~t/4).  Judged from the writer's *own* waits: an instance wrapper on
+    out_buffer_cv.wait records, in the calling thread, each wait's timeout argument and measured duration.
+    Correct bookkeeping implies: sum(durations of all waits but the last) < t, and every wait is armed with
+    at most t - sum(previous durations)."""
+    from vf.attacker import build
+    t, api, role = case["t"], case["api"], case["role"]
+    skw = dict(default_window_size=SMALL_WINDOW) if role == "c" else {}
+    p = pair.Pair(rng=rng, server_kw=skw)
+    cm.watch(p.tc, p.rec, "c")
+    cm.watch(p.ts, p.rec, "s")
+    try:
+        if not p.start() or not p.auth():
+            ctx.inconclusive("handshake failed (timed stratum)")
+            return
+        cm.diverge_ids(p, rng)
+        c, s = p.session(window_size=SMALL_WINDOW if role == "s" else None)
+        x, y = (c, s) if role == "c" else (s, c)
+        ty = p.ts if role == "c" else p.tc
+        x.settimeout(30)
+        cm.send_all(x, bytes(SMALL_WINDOW), random.Random(1))
+        if x.out_window_size != 0:
+            ctx.inconclusive("could not exhaust the window (timed stratum)")
+            return
+        x.settimeout(t)
+        waits = []
+        me = {}
+        cv = x.out_buffer_cv
+        orig = cv.wait
+
+        def wait(timeout=None):
+            if threading.get_ident() != me.get("id"):
+                return orig(timeout)
+            t0 = time.monotonic()
+            try:
+                return orig(timeout)
+            finally:
+                waits.append((timeout, time.monotonic() - t0))
+
+        cv.wait = wait
+        res = {}
+        mark = len(p.rec.events)
+
+        def call():
+            me["id"] = threading.get_ident()
+            try:
+                getattr(x, api)(b"\x41" * 1000)
+                res["outcome"] = "returned"
+            except socket.timeout:
+                res["outcome"] = "timeout"
+            except BaseException as e:
+                res["outcome"] = "raised:" + type(e).__name__
+
+        th = threading.Thread(target=call, daemon=True, name="sendall")
+        th.start()
+        start = time.monotonic()
+        blocked_overdue = False
+        while th.is_alive() and time.monotonic() - start < 12 * t:
+            ty._send_user_message(build(cm.ADJUST, y.remote_chanid, 0))  # wakes the writer, opens no window
+            time.sleep(t / 4.0)
+            if th.is_alive() and sum(d for a, d in list(waits)) >= 3 * t:
+                blocked_overdue = True  # it demonstrably *waited* 3t (not starved) and is still in the call
+                break
+        th.join(60)
+        if th.is_alive():
+            ctx.inconclusive("timed sendall still running after the wake-ups stopped")
+            return
+        ws = list(waits)
+        delivered = sum(1 for e in p.rec.snapshot()[mark:] if e.get("kind") == "msg" and e["side"] == role
+                        and e["dir"] == "in" and e["type"] == cm.ADJUST)
+        ctx.count("wakeups_delivered", delivered)
+        ctx.count("timed_send_window_waits_recorded", len(ws))
+        if len(ws) >= 3:
+            ctx.count("timed_calls_with_windowless_wakeups")
+        nonfinal = sum(d for a, d in ws[:-1])
+        over_armed = None
+        spent = 0.0
+        for a, d in ws:
+            if a is not None and a > t - spent + 0.005:
+                over_armed = (a, spent)
+                break
+            spent += d
+        witness = dict(case=case, waits=[(a if a is None else round(a, 4), round(d, 4)) for a, d in ws[:30]],
+                       total_waited=round(sum(d for a, d in ws), 3), outcome=res.get("outcome"), wakeups_delivered=delivered)
+        oc = res.get("outcome")
+        if blocked_overdue or (oc == "timeout" and nonfinal >= 3 * t):
+            ctx.violation(TIMED_SIG % api, "with settimeout(%.1f) the call spent %.2f s inside send-window waits (%d waits) "
+                          "before it ended (%s)" % (t, sum(d for a, d in ws), len(ws), oc), witness)
+        elif over_armed is not None:
+            ctx.violation("timed %s re-armed its send-window wait with more than the remaining timeout" % api,
+                          "wait(%.3f) although %.3f s of the %.1f s budget were already spent waiting" % (
+                              over_armed[0], over_armed[1], t), witness)
+        elif oc == "timeout" and nonfinal < t + 0.005:
+            ctx.count("timed_calls_timed_out_within_budget")
+        elif oc == "returned":
+            ctx.violation("%s returned normally with bytes missing on the wire (timed mode, window exhausted)" % api,
+                          "no window was ever granted, yet the call returned", witness)
+        else:
+            ctx.inconclusive("timed stratum unclear: %s" % witness)
+        ctx.count("timed_cases_run")
     finally:
         p.close()
 
@@ -337,6 +452,12 @@ def run(ctx):
         ctx.inconclusive("matrix not finished: %d of %d cases" % (done, len(todo)))
     else:
         ctx.count("matrix_shards_complete")
+    timed = [dict(kind="timed-windowless-wakeups", t=t, api=api, role=role)
+             for t in (0.3, 0.6) for api in APIS for role in "cs"] * ctx.pick(1, 2)
+    for i, case in enumerate(timed):
+        if ctx.mine(i):
+            ctx.guard(run_timed, ctx, case, rng)
+            ctx.case(tuple(sorted(case.items())) + (i,), sample=case)
     ctx.guard(run_iso, ctx, rng)
     ctx.require("calls_judged", 60)
     ctx.require("outcome_returned", 25)
@@ -344,4 +465,7 @@ def run(ctx):
     ctx.require("calls_parked_on_window", 8)
     ctx.require("windows_exhausted", 20)
     ctx.require("isolated_calls", 4)
+    ctx.require("timed_calls_with_windowless_wakeups", 4)
+    ctx.require("wakeups_delivered", 16)
+    ctx.require("timed_cases_run", 6)
     ctx.require("matrix_shards_complete", 8 if ctx.quick else 16)
